@@ -22,7 +22,7 @@ from .common import Report, Violation
 
 # ------------------------------------------------------------------ clause -> property ---------------------------
 CLAUSES = {
-    "Inv_C01_Conservation": "C01",
+    "Inv_C01_Conservation": "C01", "Obs_DecimalContextUntouched": "C01",
     "Inv_C02_NonNegative": "C02", "Inv_C02_BorrowedIsOpenPrincipal": "C02", "Obs_TotalIsAvailPlusHoldMinusBorrowed": "C02",
     "Obs_LoanListings": "C02",
     "Act_C04_FillOK": "C04", "Act_C04_OnlyBarsFill": "C04", "Act_C04_Complete": "C04", "Act_C04_CompleteDust": "C04",
@@ -40,7 +40,7 @@ CLAUSES = {
 # (request fields, bars, conditions in force): they are judged at EVERY step, because the validator re-synchronises with the
 # implementation's observables after each step.  Clauses that read the spec's hidden bookkeeping (per-order reservations,
 # the stop latch, auto-repay attribution) are only judged at the first step where implementation and spec part ways.
-ROBUST = {"Act_C11_LoanClosure", "Inv_C11_OpenUnpaid", "Obs_LoanListings", "Inv_C01_Conservation", "Inv_C02_NonNegative", "Inv_C02_BorrowedIsOpenPrincipal", "Obs_TotalIsAvailPlusHoldMinusBorrowed",
+ROBUST = {"Obs_DecimalContextUntouched", "Act_C11_LoanClosure", "Inv_C11_OpenUnpaid", "Obs_LoanListings", "Inv_C01_Conservation", "Inv_C02_NonNegative", "Inv_C02_BorrowedIsOpenPrincipal", "Obs_TotalIsAvailPlusHoldMinusBorrowed",
           "Act_C04_OnlyBarsFill", "Inv_C05_OrderShape", "Act_C05_Lifecycle", "Act_C05_FillOrKill", "Obs_Listings", "Obs_Remaining",
           "Inv_C06_NoOpenNoHold", "Inv_C06_HoldLeBalance", "Act_C07_RejectedUnchanged", "Act_C08_LiquidityCap", "Obs_Grid",
           "Inv_C09_TotalFee", "Obs_FeesOnlyInQuote", "Act_C10_GrantedImpliesMargin", "Inv_C10_NoLendingNoLoans"}
@@ -299,10 +299,11 @@ def slim(tr: dict, tid: int) -> dict:
             tr["truncated_at"] = len(steps)
             break
         steps.append({"kind": s["kind"], "arg": s["arg"], "ok": s["ok"], "err": s["err"],
-                      "openList": s.get("openList", []), "perPairOk": s.get("perPairOk", True),
+                      "openList": s.get("openList", []), "perPairOk": s.get("perPairOk", True), "obsBroken": bool(s.get("obsBroken")),
                       "obs": {"clock": o["clock"], "bal": o["bal"], "hold": o["hold"], "bor": o["bor"], "bidask": o["bidask"],
                               "orders": o["orders"], "loans": o["loans"], "totalOk": o["totalOk"],
-                              "listingOk": o["listingOk"], "loanListingOk": o.get("loanListingOk", True), "offgrid": o["offgrid"][:3]}})
+                              "listingOk": o["listingOk"], "loanListingOk": o.get("loanListingOk", True), "offgrid": o["offgrid"][:3],
+                              "ctxOk": o.get("ctxOk", True)}})
     if "truncated_at" in tr:
         return {"id": tid, "cfg": tr["cfg"], "steps": steps, "events": [], "complete": False, "truncated": True}
     return {"id": tid, "cfg": tr["cfg"], "steps": steps, "events": [e for e in tr["events"] if "info" in e],
@@ -460,10 +461,17 @@ def random_cfg(rng: random.Random, profile: str) -> dict:
                 req = rng.choice([1, 2, 4, 8, 0])
                 # a symbol without requirement can be borrowed before it has a price: its interest stays in its own symbol
                 # (get_loans() raises NoPrice for a loan whose outstanding interest cannot be converted, observation O8)
-                cfg["cond"][s] = margin_cond(s if req == 0 else rng.choice([s, "USD"]), *rng.choice([(0, 1), (1, 100), (1, 10), (7, 100)]),
-                                             period=rng.choice([1, 2, 4, 8]),
+                flat_foreign = req == 0 and s != "USD" and rng.random() < 0.5
+                cfg["cond"][s] = margin_cond("USD" if flat_foreign else s if req == 0 else rng.choice([s, "USD"]),
+                                             *rng.choice([(1, 100), (1, 10)] if flat_foreign else [(0, 1), (1, 100), (1, 10), (7, 100)]),
+                                             # period 0 = flat interest (not proportional to time)
+                                             period=0 if flat_foreign else rng.choice([1, 2, 4, 8, 0]),
                                              minInt=rng.choice([0, 0, 1, 5]), reqN=req)
     cfg["condAlt"] = {s: dict(c) for s, c in cfg["cond"].items()}
+    if lend == "margin":
+        cfg["defaultCond"] = rng.choice(syms) if rng.random() < 0.4 else ""
+        cfg["reuseLend"] = rng.random() < 0.3
+    cfg["keepDefaultPairInfo"] = rng.random() < 0.7
     cfg["istep"] = {s: 1 for s in syms}
     if not cfg.get("borrowOnly") and not cfg.get("inverse") and rng.random() < 0.3:
         # the precision configured for a symbol is coarser than the precision of the pairs it trades in (set_pair_info):
@@ -514,10 +522,17 @@ class Driver:
                     if cfg.get("slip"):
                         v = rng.randint(20, 120)
                     self.bars.append({"kind": "bar", "arg": {"p": p, "t": t, "o": o, "h": h, "l": l, "c": c, "v": v}})
-            if rng.random() < 0.08 and some:
+            if rng.random() < 0.12 and some:
                 # a second feed delivers another bar of one of the pairs with the same timestamp
                 last = self.bars[-1]["arg"]
-                self.bars.append({"kind": "bar", "arg": dict(last, dup=True, v=max(1, last["v"] // 2))})
+                span = rng.choice([1, 1, 4, 24])
+                wide = dict(last, dup=True, v=max(1, last["v"] // 2), span=span)
+                if span > 1:
+                    # a bar of a longer period ending at the same time: it begins earlier and its range is wider
+                    wide["h"] = last["h"] + rng.choice([0, rng.randint(1, 12)])
+                    wide["l"] = max(1, last["l"] - rng.choice([0, rng.randint(1, 12)]))
+                    wide["o"] = rng.randint(wide["l"], wide["h"])
+                self.bars.append({"kind": "bar", "arg": wide})
         self.ncalls = {}
 
     def policy(self, t, obs, out_steps):
@@ -679,6 +694,17 @@ def corpus() -> List[dict]:
         steps += [{"kind": "bar", "arg": dict(p=2, t=2 + nb, o=20, h=21, l=19, c=20, v=1000)},
                   {"kind": "get_open_orders", "arg": 3}]
         out.append({"cfg": cfg, "steps": steps})
+    # two bar periods for one pair (e.g. 1 h and 4 h bars from two feeds): the longer bar ends with the short one, begins
+    # before bars already seen and has the wider range -- orders are matched against it like against any other bar
+    for ty, lim, op in (("limit", 8, "buy"), ("limit", 13, "sell"), ("stop", 13, "buy")):
+        cfg = base_cfg(init={"BTC": 5, "USD": 1000})
+        out.append({"cfg": cfg, "steps": [
+            {"kind": "bar", "arg": dict(p=1, t=1, o=10, h=10, l=10, c=10, v=1000)},
+            {"kind": "bar", "arg": dict(p=1, t=2, o=10, h=11, l=9, c=10, v=1000)},
+            {"kind": "create_order", "arg": _req(type=ty, op=op, amount=2, limit=lim if ty == "limit" else 0, stop=lim if ty == "stop" else 0)},
+            {"kind": "bar", "arg": dict(p=1, t=3, o=10, h=11, l=9, c=10, v=1000)},
+            {"kind": "bar", "arg": dict(p=1, t=3, o=10, h=14, l=7, c=10, v=1000, dup=True, span=4)},
+            {"kind": "get_open_orders", "arg": 2}]})
     # KF-1 (known finding, C04): a fill whose quote amount rounds to zero is ignored -- kept so that every run reports it
     cfg = base_cfg(scale={"BTC": 100, "USD": 100}, init={"BTC": 0, "USD": 1000})
     out.append({"cfg": cfg, "steps": [
@@ -686,9 +712,11 @@ def corpus() -> List[dict]:
         {"kind": "create_order", "arg": _req(type="limit", amount=2, limit=50)},
         {"kind": "bar", "arg": dict(p=1, t=2, o=2, h=5, l=2, c=5, v=1000)}]})
     # D15: rollback of the first auto-borrow loan vetoed by the margin rule (found by a seed sweep)
-    d15 = os.path.join(os.path.dirname(os.path.abspath(__file__)), "corpus_d15.json")
-    if os.path.exists(d15):
-        out.append(json.load(open(d15)))
+    for name in ("corpus_d15.json", "corpus_d16.json"):      # D16: loan with unvaluable flat interest refused before touching the account
+        path = os.path.join(os.path.dirname(os.path.abspath(__file__)), name)
+        if os.path.exists(path):
+            sc = json.load(open(path))
+            out.append({"cfg": sc["cfg"], "steps": sc["steps"], "lift": sc.get("lift", {})})
     return out
 
 
@@ -778,6 +806,8 @@ def check(rep: Report, tier: str, seed: int, prop: str = None):
                 # very fine precisions (16 .. 24 decimals): amounts far below any "dust" tolerance, quantisation beyond 18 digits
                 hi = rng.choice([14, 18, 22])
                 lift = {"BTC": hi - 2, "ETH": hi - 2, "USD": hi, "EUR": hi - 2, "ARS": hi}
+            elif rng.random() < 0.3:
+                lift = {"BTC": "to8", "ETH": "to8", "USD": rng.choice([0, 2])}        # base precision exactly 8
             nb = rng.choice([8, 15, 30]) if quick or rng.random() < 0.9 else 320
             jobs.append(("random", (rng.getrandbits(40), profile if rng.random() < 0.7 else "mixed", nb, lift)))
         jobs += [("script", sc) for sc in corpus()]
